@@ -148,6 +148,11 @@ def EFF_SPECS():
         Spec("SendSome", "socket_impl.cpp", "sockpuppet::SendSome", "SendSome",
              [("fd", D), ("data", "ptr"), ("size", U64), ("deadline", "obj")], U64,
              needs=("DeadlineLimited_Remaining", "DeadlineLimited_TimeLeft"), objcls="DeadlineLimited"),
+        # SocketAsyncImpl::DriverSend / DriverSendTo over the abstract queue / promise / buffer / socket interface
+        Spec("DriverSend", "socket_async_impl.cpp", "SocketAsyncImpl::DriverSend", "DriverSend", [("q", "queue")], BOOL,
+             world="QueueWorld"),
+        Spec("DriverSendTo", "socket_async_impl.cpp", "SocketAsyncImpl::DriverSend", "DriverSendTo", [("q", "queue")], BOOL,
+             world="QueueWorld"),
         # Driver::DriverImpl::StepTodos<Deadline>, one definition per instantiation, over the abstract deque / task
         # interface `TodoWorld`
         Spec("StepTodos_Unlimited", "driver_impl.cpp", "DriverImpl::Step", "StepTodos", [("deadline", "obj")], MS,
@@ -160,6 +165,27 @@ def EFF_SPECS():
              needs=("MinDuration", "DeadlineLimited_Remaining", "DeadlineLimited_TimeLeft"), world="TodoWorld",
              objcls="DeadlineLimited", targ="DeadlineLimited"),
     ]
+
+
+# the abstract queue / promise / buffer / socket interface of SocketAsyncImpl::DriverSend(To) (functions with
+# `world="QueueWorld"`): canonical text of the CALLEE -> (field, result type, argument patterns, provenance).
+# An argument pattern is a canonical text the argument must have (it only travels to the call) or a type (the
+# argument is translated and passed on).  Provenance: the structured binding `auto &&[promise, buffer(, addr)] =
+# q.front()` - the names must be bindings number 0, 1, 2 of exactly that declaration.
+QUEUE_WORLD = {
+    "q.size": ("qSize", U64, []),
+    "q.empty": ("qEmpty", BOOL, []),
+    "q.pop": ("qPop", VOID, []),
+    "buffer->size": ("bufferSize", U64, []),
+    "buffer->erase": ("bufferErase", VOID, ["0", U64]),
+    "promise.set_value": ("promiseSetValue", VOID, []),
+    "promise.set_exception": ("promiseSetException", VOID, ["make_exception_ptr(e)"]),
+    "buff->sock->SendSome": ("sockSendSome", U64, ["buffer->data()", U64]),
+    "buff->sock->SendTo": ("sockSendTo", U64, ["buffer->data()", U64, "addr->ForUdp()"]),
+    "buff->sock->DriverPending": ("sockDriverPending", VOID, []),
+}
+QUEUE_BINDINGS = {"promise": 0, "buffer": 1, "addr": 2}
+CATCHABLE = {"std::runtime_error": "runtime_error", "std::logic_error": "logic_error", "std::system_error": "system_error"}
 
 
 class SvVal:
@@ -237,8 +263,12 @@ class EFn(C.Fn):
         return None
 
     def todo_call(self, n):
-        """(field, type) when n is one of the abstract deque / task operations of a TodoWorld function"""
-        if self.spec_e.world != "TodoWorld" or n.get("kind") not in ("MemberExpr", "CXXMemberCallExpr", "CXXOperatorCallExpr"):
+        """(field, type[, argument nodes]) when n is one of the abstract operations of a TodoWorld / QueueWorld function"""
+        if n.get("kind") not in ("MemberExpr", "CXXMemberCallExpr", "CXXOperatorCallExpr"):
+            return None
+        if self.spec_e.world == "QueueWorld":
+            return self.queue_call(n)
+        if self.spec_e.world != "TodoWorld":
             return None
         try:
             t = TODO_WORLD.get(C.canon(n))
@@ -253,6 +283,44 @@ class EFn(C.Fn):
             if not ids or self.env.get(ids[-1]) != ref + "ref" and not any(self.env.get(i) == ref + "ref" for i in ids):
                 return None
         return field, ty
+
+    def queue_call(self, n):
+        if n.get("kind") != "CXXMemberCallExpr":
+            return None
+        ks = kids(n)
+        try:
+            callee = C.canon(ks[0])
+        except Exception:
+            return None
+        t = QUEUE_WORLD.get(callee)
+        if not t:
+            return None
+        field, ty, pats = t
+        args = [a for a in ks[1:] if a["kind"] != "CXXDefaultArgExpr"]
+        if len(args) != len(pats):
+            return None
+        passed = []
+        for a, pat in zip(args, pats):
+            if isinstance(pat, str):
+                try:
+                    if C.canon(a) != pat:
+                        return None
+                except Exception:
+                    return None
+            else:
+                passed.append((a, pat))
+        # provenance of the names the canonical text mentions
+        for x in walk(n):
+            if x.get("kind") == "DeclRefExpr":
+                rd = x.get("referencedDecl", {})
+                nm = rd.get("name")
+                if nm in QUEUE_BINDINGS and self.env.get(rd.get("id")) != ("binding", QUEUE_BINDINGS[nm]):
+                    return None
+                if nm == "q" and self.env.get(rd.get("id")) != "queue":
+                    return None
+                if nm == "e" and self.env.get(rd.get("id")) != "caught":
+                    return None
+        return field, ty, passed
 
     def is_eff(self, n):
         for x in walk(n):
@@ -277,7 +345,7 @@ class EFn(C.Fn):
             fail("reference to %s `%s` is outside the subset" % (rd.get("kind"), rd.get("name")))
         if b == "uninit":
             fail("`%s` is read before it is assigned" % rd.get("name"))
-        if b in ("drop", "frontref", "taskref"):
+        if b in ("drop", "frontref", "taskref", "queue", "caught") or isinstance(b, tuple):
             fail("`%s` (a handle that is not modelled) is used as a value" % rd.get("name"))
         return b
 
@@ -368,9 +436,29 @@ class EFn(C.Fn):
         ks = kids(n)
         tc = self.todo_call(n)
         if tc:
-            r = self.fresh("r")
-            res = Val("()", VOID) if tc[1] == VOID else Val(r, tc[1])
-            return "%sM.bind (W.%s) fun %s =>\n%s" % (self.cur_pad, tc[0], "_" if tc[1] == VOID else r, k(res))
+            passed = tc[2] if len(tc) > 2 else []
+            if sum(1 for a, _ in passed if self.is_eff(a)) > 1:
+                fail("more than one effectful argument: the order of evaluation is unspecified")
+            vals = []
+
+            def go(i):
+                if i == len(passed):
+                    r = self.fresh("r")
+                    res = Val("()", VOID) if tc[1] == VOID else Val(r, tc[1])
+                    return "%sM.bind (%s) fun %s =>\n%s" % (self.cur_pad, " ".join(["W.%s" % tc[0]] + vals),
+                                                            "_" if tc[1] == VOID else r, k(res))
+                a, want = passed[i]
+
+                def got(v):
+                    if v.ty != want:
+                        if want.kind == "int" and v.ty.kind == "int":
+                            v = convert(v, want)
+                        else:
+                            fail("argument of %s has type %r, expected %r" % (tc[0], v.ty, want))
+                    vals.append(v.s if v.s.startswith("(") or re.match(r"^\w+$", v.s) else "(%s)" % v.s)
+                    return go(i + 1)
+                return self.ex(a, got)
+            return go(0)
         if kind == "CXXOperatorCallExpr" and len(ks) == 3:
             # chrono operator with one effectful operand: bind it, rebuild the operator on pure values
             a1, a2 = ks[1], ks[2]
@@ -549,15 +637,27 @@ class EFn(C.Fn):
         if k in C.STRIP and C._strip(s)["kind"] == "CXXThrowExpr" or k == "CXXThrowExpr":
             return self.throw(C._strip(s), pad)
         if k == "ReturnStmt":
+            wrap = "(some %s)" if ctx.get("in_try") else "(%s)"
             if not kids(s):
-                return pad + "M.pure ()"
-            return self.ex(kids(s)[0], lambda v: pad + "M.pure (%s)" % self.ret_val(v))
+                return pad + "M.pure " + (wrap % "()")
+            return self.ex(kids(s)[0], lambda v: pad + "M.pure " + (wrap % self.ret_val(v)))
+        if k == "CXXTryStmt":
+            return self.try_(s, rest, ctx, ind)
         if k == "BreakStmt":
             return ctx["brk"](ind) if ctx.get("brk") else fail("break outside a loop")
         if k == "ContinueStmt":
             return ctx["cont"](ind) if ctx.get("cont") else fail("continue outside a loop")
         if k == "DeclStmt":
             ds = kids(s)
+            if len(ds) == 1 and ds[0]["kind"] == "DecompositionDecl" and self.spec_e.world == "QueueWorld":
+                dk = kids(ds[0])
+                if not dk or C.canon(dk[0]) != "q.front()" or "&" not in ((ds[0].get("type") or {}).get("qualType") or "") \
+                        or any(self.env.get(x.get("referencedDecl", {}).get("id")) != "queue" for x in walk(dk[0])
+                               if x.get("kind") == "DeclRefExpr" and x.get("referencedDecl", {}).get("name") == "q"):
+                    fail("structured binding is not `auto &&[..] = q.front()`")
+                for i, b in enumerate(x for x in dk[1:] if x["kind"] == "BindingDecl"):
+                    self.env[b["id"]] = ("binding", i)     # a reference to field i of the front element: nothing happens
+                return nxt()
             if len(ds) != 1 or ds[0]["kind"] != "VarDecl":
                 fail("declaration statement is not one variable")
             return self.decl(ds[0], nxt, pad)
@@ -603,6 +703,36 @@ class EFn(C.Fn):
             return self.ex(e, lambda v: nxt())
         fail("statement kind %s is outside the subset" % k)
 
+    def try_(self, s, rest, ctx, ind):
+        """`try B catch(X const &e) H` rest: B and H yield `some v` when they `return v` and `none` when they fall
+        through; the statements after the try are NOT inside it.  Neither B nor H may assign a local of the function."""
+        pad = "  " * ind
+        parts = kids(s)
+        if len(parts) != 2 or parts[1]["kind"] != "CXXCatchStmt" or ctx.get("in_try") or ctx.get("brk") or ctx.get("cont"):
+            fail("try statement outside the subset (one handler, not nested, not inside a loop)")
+        body, handler = parts
+        hk = kids(handler)
+        if len(hk) != 2 or hk[0]["kind"] != "VarDecl":
+            fail("catch(...) / handler shape")
+        cls = re.sub(r"^const\s+", "", re.sub(r"\s*&$", "", ((hk[0].get("type") or {}).get("qualType") or ""))).strip()
+        if cls not in CATCHABLE:
+            fail("catch of `%s`" % cls)
+        if self.mutated(body) or self.mutated(hk[1]):
+            fail("the try block or its handler assigns a local")
+        inner = {"end": (lambda i2: "  " * i2 + "M.pure none"), "in_try": True}
+        saved = dict(self.env)
+        btxt = self.st([body], inner, ind + 2)
+        self.env = dict(saved)
+        self.env[hk[0]["id"]] = "caught"
+        htxt = self.st([hk[1]], inner, ind + 2)
+        self.env = saved
+        o = self.fresh("o")
+        v = self.fresh("v")
+        after = self.st(rest, ctx, ind + 1)
+        wrap = "(some %s)" if ctx.get("in_try") else "%s"
+        return ("%sM.bind (M.tryCatch .%s (\n%s)\n%s  (fun _ =>\n%s)) fun %s =>\n%smatch %s with\n%s| some %s => M.pure %s\n%s| none =>\n%s"
+                % (pad, CATCHABLE[cls], btxt, pad, htxt, o, pad, o, pad, v, wrap % v, pad, after))
+
     def if_(self, cond, then, els, rest, ctx, ind):
         pad = "  " * ind
 
@@ -617,7 +747,7 @@ class EFn(C.Fn):
 
     def decl(self, d, nxt, pad):
         t = ptype(d.get("type"))
-        inits = kids(d)
+        inits = [c for c in kids(d) if not c["kind"].endswith("Attr")]      # [[maybe_unused]] and the like
         did = d["id"]
         if self.spec_e.world == "TodoWorld" and inits:
             txt = C.canon(inits[-1])
@@ -905,6 +1035,8 @@ class EFn(C.Fn):
             t = ptype(p.get("type"))
             if kind == "drop":
                 self.env[p["id"]] = "drop"
+            elif kind == "queue":
+                self.env[p["id"]] = "queue"
             elif kind == "ptr":
                 if t != PTR:
                     fail("parameter `%s` is not a char pointer" % cname)
